@@ -93,7 +93,20 @@ def gen_side(rng, prefix, max_dims=3, max_size=4, min_dims=1, size_bias=True, un
 def gen_dataset(rng, max_dims=3, max_size=4, dtypes=('f8',), **kw):
     pos = gen_side(rng, 'P', max_dims, max_size, **kw)
     spec = gen_side(rng, 'S', max_dims, max_size, **kw)
-    return {'pos': pos, 'spec': spec, 'dtype': rng.choice(list(dtypes))}
+    ds = {'pos': pos, 'spec': spec, 'dtype': rng.choice(list(dtypes))}
+    # the element type of the index matrices as stored (files written by other tools use narrow or signed integers);
+    # decided by a generator keyed by the drawn content
+    own = random.Random(repr(('idx', pos['sizes'], spec['sizes'], pos['rate'], spec['rate'])))
+    if own.random() < 0.4 and max(pos['sizes'] + spec['sizes']) < 200:
+        ds['idx_dtype'] = own.choice(['u1', 'u1', 'u2', 'i4', 'i8'])
+    # HDF5 storage layout of the main dataset: chunks that do NOT divide the shape (partial last chunks), sometimes
+    # compressed - used by write_usid unless the caller asks for a layout of its own
+    n, m = n_points(pos), n_points(spec)
+    if own.random() < 0.3 and n * m > 1:
+        ds['main_chunks'] = [own.randint(1, n), own.randint(1, m)]
+        if own.random() < 0.3:
+            ds['main_compression'] = 'gzip'
+    return ds
 
 
 def n_points(side):
@@ -141,12 +154,15 @@ def tokens(arr):
     return np.asarray(arr).round().astype(np.int64)
 
 
-def write_anc(grp, base, side, is_spec):
+IDX_DTYPES = {'u4': np.uint32, 'u1': np.uint8, 'u2': np.uint16, 'i4': np.int32, 'i8': np.int64}
+
+
+def write_anc(grp, base, side, is_spec, idx_dtype='u4'):
     inds = index_matrix(side['sizes'], side['rate'])
     vals = value_matrix(side)
     if is_spec:
         inds, vals = inds.T, vals.T
-    d_i = grp.create_dataset(base + '_Indices', data=np.ascontiguousarray(inds), dtype=np.uint32)
+    d_i = grp.create_dataset(base + '_Indices', data=np.ascontiguousarray(inds), dtype=IDX_DTYPES[idx_dtype])
     d_v = grp.create_dataset(base + '_Values', data=np.ascontiguousarray(vals), dtype=np.float32)
     for d in (d_i, d_v):
         d.attrs['labels'] = np.array(side['labels'], dtype='S')
@@ -162,13 +178,17 @@ def write_usid(h5_group, ds, name='main', quantity='Current', units='nA', data=N
     kw = {}
     if chunks:
         kw['chunks'] = chunks
+    elif ds.get('main_chunks') and tuple(arr.shape) == (n, m) and ds['main_chunks'][0] <= n and ds['main_chunks'][1] <= m:
+        kw['chunks'] = tuple(ds['main_chunks'])
+        if ds.get('main_compression') and not compression:
+            kw['compression'] = ds['main_compression']
     if compression:
         kw['compression'] = compression
     h5_main = h5_group.create_dataset(name, data=arr, **kw)
     h5_main.attrs['quantity'] = quantity
     h5_main.attrs['units'] = units
-    pi, pv = write_anc(h5_group, 'Position', ds['pos'], False)
-    si, sv = write_anc(h5_group, 'Spectroscopic', ds['spec'], True)
+    pi, pv = write_anc(h5_group, 'Position', ds['pos'], False, ds.get('idx_dtype', 'u4'))
+    si, sv = write_anc(h5_group, 'Spectroscopic', ds['spec'], True, ds.get('idx_dtype', 'u4'))
     h5_main.attrs['Position_Indices'] = pi.ref
     h5_main.attrs['Position_Values'] = pv.ref
     h5_main.attrs['Spectroscopic_Indices'] = si.ref
